@@ -329,6 +329,9 @@ func (e *Env) zeroValue(t types.Type, nilOK bool) Value {
 			return e.stringLit("", t)
 		}
 	case *types.Slice:
+		if e.R().sortOf(u.Elem()) == nil {
+			return SeqV{Len: IntC(0), Typ: t} // nil slice of non-scalars
+		}
 		a := e.x.alloc()
 		e.st.mem[a] = ArrayV{T: ConstArr(e.zeroElem(u.Elem())), N: -1, Elem: u.Elem()}
 		return SliceV{Alloc: a, Off: IntC(0), Len: IntC(0), Cap: IntC(0), Elem: u.Elem(), Nil: TrueT, Typ: t}
@@ -1260,7 +1263,20 @@ func (e *Env) indexValue(base Value, iv Value, at ast.Node) Value {
 		i := e.indexTerm(iv)
 		e.x.safety(e, "index", at, And(Le(IntC(0), i), Lt(i, b.Len)))
 		if c, ok := i.Int64(); ok {
+			if c < 0 || c >= int64(len(b.Elems)) {
+				// out of range: code cannot continue (the obligation above fails); a specification
+				// reads an arbitrary value
+				if st, ok := b.Typ.Underlying().(*types.Slice); ok {
+					return e.x.havoc(e, st.Elem(), "oob")
+				}
+				unsupported("%s: index %d of a sequence of %d elements", e.where, c, len(b.Elems))
+			}
 			return b.Elems[c]
+		}
+		if len(b.Elems) == 0 {
+			if st, ok := b.Typ.Underlying().(*types.Slice); ok {
+				return e.x.havoc(e, st.Elem(), "oob")
+			}
 		}
 		res := b.Elems[len(b.Elems)-1]
 		for k := len(b.Elems) - 2; k >= 0; k-- {
